@@ -180,3 +180,37 @@ Definition run_case (args : list (list Z)) : list Z :=
   | [[2]] => [ST_OK; MAXU; RECSZ; MONEY_OFF]
   | _ => [ST_BADCASE]
   end.
+
+(* ---------------------------------------------------------------- specification: plain arithmetic *)
+(* a map slot -> balance with set, credit and saturating debit; the value each operation returns *)
+Definition spec_step (b : Z -> Z) (o : op) : (Z -> Z) * Z :=
+  match o with
+  | OpSet u m => (upd b u m, m)
+  | OpDe u m => let v := if (m <? 0) && (b u <? - m) then 0 else b u + m in (upd b u v, v)
+  | OpGet u => (b, b u)
+  end.
+Fixpoint spec_run (b : Z -> Z) (h : list op) : (Z -> Z) * list Z :=
+  match h with
+  | [] => (b, [])
+  | o :: r => let '(b1, v) := spec_step b o in let '(b2, vs) := spec_run b1 r in (b2, v :: vs)
+  end.
+
+Definition valid (u : Z) : Prop := 1 <= u <= MAXU.
+Definition int32 (m : Z) : Prop := -2147483648 <= m <= 2147483647.
+Definition target (o : op) : Z := match o with OpSet u _ | OpDe u _ | OpGet u => u end.
+
+(* an operation of the property's histories: a valid slot, an int32 amount, and a sum that stays inside int32
+   (a debit larger than the balance saturates and has no sum to overflow) *)
+Definition op_ok (b : Z -> Z) (o : op) : Prop :=
+  match o with
+  | OpSet u m => valid u /\ int32 m
+  | OpDe u m => valid u /\ int32 m /\ ((m < 0 /\ b u < - m) \/ int32 (b u + m))
+  | OpGet u => valid u
+  end.
+Fixpoint hist_ok (b : Z -> Z) (h : list op) : Prop :=
+  match h with [] => True | o :: r => op_ok b o /\ hist_ok (fst (spec_step b o)) r end.
+
+(* segment, file and arithmetic agree on every valid slot; .PASSWDS has MAX_USERS records *)
+Definition Agree (s : st) (b : Z -> Z) : Prop :=
+  length (file s) = Z.to_nat (MAXU * RECSZ) /\
+  forall u, valid u -> shm s (u - 1) = b u /\ money_field (file s) u = b u.
